@@ -702,9 +702,10 @@ class DBusObjectHandler :
         @param dbusObject: The object to export over DBus
         """
         o = IDBusObject(dbusObject)
-        self.exports[o.getObjectPath()] = o
-        o.setObjectHandler(self)
 
+        # Build (and thereby marshal) the announcement before the object
+        # becomes visible: if a property value cannot be sent this raises
+        # and the object must not be reachable without having been announced
         i = {}
         for iface in o.getInterfaces():
             i[iface.name] = o.getAllProperties(iface.name)
@@ -716,6 +717,9 @@ class DBusObjectHandler :
             signature='sa{sa{sv}}',
             body=[o.getObjectPath(), i],
         )
+
+        self.exports[o.getObjectPath()] = o
+        o.setObjectHandler(self)
 
         self.conn.sendMessage(msig)
 
